@@ -572,5 +572,24 @@ def directed(tier):
     steps = setup_steps('OpaqueData', 'PreActive', r, ctx)
     steps.append({'actor': 0, 'ver': [2, 0], 'probe': True, 'items': [
         {'op': 'GetAttributes', 'uid': '@x', 'names': ['Digest', 'Link']}]})
-    return [{'actors': [{'cn': 'owner'}], 'seed': 3, 'steps': steps,
-             'cell': ['GetAttributes', 'OpaqueData', 'PreActive', [2, 0], 4]}]
+    plans = [{'actors': [{'cn': 'owner'}], 'seed': 3, 'steps': steps,
+              'cell': ['GetAttributes', 'OpaqueData', 'PreActive', [2, 0],
+                       4]}]
+    # repaired (73bca64): Sign / SignatureVerify with a hashing algorithm
+    # the crypto engine has no entry for, both paddings
+    for name, ot in (('Sign', 'PrivateKey'), ('SignatureVerify',
+                                              'PublicKey')):
+        for pad in (8, 10):
+            r = random.Random(5)
+            ctx = gen.Ctx(r, nactors=1)
+            st = setup_steps(ot, 'Active', r, ctx)
+            op = {'op': name, 'uid': '@x', 'data': '0a0b',
+                  'cp': {'alg': 4, 'hash': 1, 'padding': pad}}
+            if name == 'SignatureVerify':
+                op['sig'] = '11' * 128
+            st.append({'actor': 0, 'ver': [1, 4], 'probe': True,
+                       'items': [op]})
+            plans.append({'actors': [{'cn': 'owner'}], 'seed': 5,
+                          'steps': st,
+                          'cell': [name, ot, 'Active', [1, 4], 4]})
+    return plans
